@@ -4,7 +4,9 @@ THEOREMS_TIED = ["Rustic.Props.C15.append_only_no_removal", "Rustic.Props.C15.de
                  "Rustic.Props.C15.table_covers_api", "Rustic.Props.C15.table_rows_exist", "Rustic.Props.C15.dry_flags_covered",
                  "Rustic.Props.C15.every_dry_flag_has_effective_twin", "Rustic.Props.C15.append_only_left_only_by_config",
                  "Rustic.Props.C15.expected_rejected_config_agrees", "Rustic.Props.C15.rejected_config_change_keeps_every_guard",
-                 "Rustic.Props.C15.handle_flag_is_table_flag"]
+                 "Rustic.Props.C15.handle_flag_is_table_flag", "Rustic.Props.C15.prune_guard_precedes_unindexed_packs",
+                 "Rustic.Props.C15.prune_steps_conform_to_table", "Rustic.Props.C15.repair_index_dry_run_issues_nothing",
+                 "Rustic.Props.C15.repair_index_steps_conform_to_table"]
 
 TRUSTED = [
     "hand-written command table lean/Rustic/Model/CommandTable.lean: WHAT each row may write/remove and where it is refused is read off repository.rs, "
@@ -14,6 +16,10 @@ TRUSTED = [
     "theorems table_covers_api / table_rows_exist / dry_flags_covered must re-prove",
     "the reviewed read-only list (`Cmd.methods .readOnly`, 53 constructors / accessors / readers): reviewed by hand; the ones the harness calls (token `readonly`, "
     "check, restore, prune_plan, prepare_restore) are checked to issue no write/remove",
+    "hand-written statement-order model lean/Rustic/Model/CommandSteps.lean of prune_repository (guard, unindexed packs / instant_delete, early index removal, "
+    "remainder) and repair_index (per index file, header loop with Indexer::add_with auto-save at the generated constant C15_INDEXER_MAX_COUNT or MAX_AGE, finalize): "
+    "read off commands/prune.rs, commands/repair/index.rs, index/indexer.rs; validated by traffic on repositories with unindexed packs and with more than "
+    "MAX_COUNT blobs",
     "traffic harness harness/src/c15.rs over harness/src/repo.rs MemBackend (op log of every write_bytes/remove the real commands issue, on the cold AND the hot store) "
     "and OneConfigBackend (single config file)",
     "content addressing: a write under an existing id carries identical bytes (checked by the harness: every pre-existing snapshot/index/pack file of every store is "
@@ -31,6 +37,7 @@ ASSUMPTIONS = [
     "init* — confirmed mechanically by dry_flags_covered; prepare_restore's dry_run concerns the local destination (the repository is read-only either way)",
     "append-only protects snapshot/index/pack files; key and config files are outside the protected set — in particular `init_with_config` over an existing "
     "append-only repository replaces the config (and so can clear the flag) without any guard: the table has that row and the traffic check confirms it (token `reinit`)",
+    "the indexer's age trigger (MAX_AGE = 5 min) is not reachable by traffic; the theorems quantify over it (PackRead.aged), the traffic covers the blob-count trigger",
     "on damaged setups (all data packs lost before the flag was set) the observation is coarse (refused|ran + kinds without snapshot writes); the oracles are not",
 ]
 RULE = ("ops from harness/src/c15.rs (VERIF_SEED): ONE-handle histories (`hnd`): append-only repository -> apply_config(set_append_only(false) + an option value rejected "
@@ -43,7 +50,11 @@ RULE = ("ops from harness/src/c15.rs (VERIF_SEED): ONE-handle histories (`hnd`):
         "index/snapshots with and without delete/dry-run/read-all, rewrite snapshots/trees with and without forget/dry-run/tree-changing exclude, merge with and "
         "without deleting the merged snapshots, config changes incl. switching append-only off and on again, key add/remove, copy into, check, restore, restore "
         "planning with its dry-run flag, a batch of ~30 read-only methods, repair hotcold (4 forms), init / init_with_config / init_hot over the existing repository); "
-        "every dry-run flag on intact and damaged repositories (`dry`), and 36 `dryt` scenarios where the NON-dry twin is run afterwards on the same repository and what "
+        "setups orph / hcorph = pack files listed by no index file (interrupted third backup) x 14 prune tokens covering every field of PruneOptions (instant_delete, "
+        "early_delete_index, repack_all, fast_repack, repack_uncompressed, repack_cacheable_only, no_resize, max_unused, max_repack, keep_delete, keep_pack, ignore_snaps): alone, "
+        "after a rejected config change on one handle, allowed and re-armed paths, inside random sequences; "
+        "every dry-run flag on intact and damaged repositories (`dry`), repair_index dry runs on repositories with more than the indexer's MAX_COUNT blobs (64-byte fixed-size "
+        "chunks; read-all, or every index file lost; plain and hot/cold), and 39 `dryt` scenarios where the NON-dry twin is run afterwards on the same repository and what "
         "it wrote/removed is part of the observation. Non-trivial = every case (each runs real commands against recorded storage); distinct by hash of (op, observation).")
 EXPLANATION = ("Theorems (over the command table, for plain and hot/cold repositories): on an append-only repository no command issues a removal of snapshot/index/pack; "
                "every command that can remove such files is refused before any storage operation; a dry-run flag means no operation at all; along any history of "
@@ -52,7 +63,10 @@ EXPLANATION = ("Theorems (over the command table, for plain and hot/cold reposit
                "set_append_only(false)) is refused in every state and leaves the outcome of every command as it was (rejected_config_change_keeps_every_guard), and the "
                "table's flag is the in-memory flag of the handle in the config model of apply_config (handle_flag_is_table_flag: Err => in-memory config unchanged); the harness' expectations agree with the table; the table classifies exactly the public methods of Repository in "
                "the current source and every dry-run flag of the current source, and every dry-run row has a scenario (also on hot/cold) whose non-dry twin really "
-               "writes/removes. Correspondence: result and kinds of storage operations of the real commands equal the table's, on both stores of hot/cold pairs; "
+               "writes/removes. Statement order (Model/CommandSteps.lean): prune_repository on an append-only repository returns AppendOnly with no operation for all options, all sets of "
+               "unindexed packs and all plans (the guard precedes the unindexed-pack block; the variant with the guard below it provably removes them), a dry-run repair_index issues "
+               "nothing for all index files / packs / blob counts / indexer-age patterns (the variant guarding only finalize provably writes at MAX_COUNT blobs), and both functions conform "
+               "to their table rows. Correspondence: result and kinds of storage operations of the real commands equal the table's, on both stores of hot/cold pairs; "
                "a refused config change leaves the handle's in-memory config as it was (`hnd`/`aox`: observed through repo.config() after every refused apply_config); "
                "oracles: pre-existing protected files byte-identical in every store after every command on an append-only repository, refused command => empty op log, "
                "dry-run => every store byte-identical, read-only methods => empty op log.")
